@@ -39,6 +39,12 @@ def main(tier):
             if t == "Arena::is_empty":
                 if rec["exit"] == "return":
                     empties.add(rec["result"])
+                    lo, hi = rec.get("len0", [None, None])
+                    okr = (rec["result"] is True and lo == 0 and hi == 0) or (rec["result"] is False and lo is not None and lo >= 1)
+                    run.ob("tables", "is_empty/%s = %s exactly when the slot count is %s" % (prof, rec["result"], "0" if rec["result"] else ">= 1"), okr and rec.get("writes") == 0,
+                           key="tables|is_empty is not `number of slots == 0`", detail=rec, nontrivial=("is_empty", rec["result"]))
+                else:
+                    run.ob("tables", "is_empty/%s returns" % prof, False, key="tables|is_empty does not return: %s" % rec["exit"], detail=rec)
                 continue
             if (t, case) not in EXPECT:
                 continue            # e.g. Index out of range (panics; outside the property)
@@ -89,7 +95,10 @@ def main(tier):
     f = prog.fns.get(AR + "is_empty")
     if run.ob("views", "Arena::is_empty exists", f is not None, key="views|is_empty missing"):
         names = [rules.callee_name(t["callee"]) for _, t in prog.calls(f)]
-        run.ob("views", "is_empty() calls count() only", names == [AR + "count"], key="views|is_empty is not count() == 0", detail=names, nontrivial=("view", "is_empty"))
+        okn = {AR + "count", "alloc::vec::Vec::<T, A>::is_empty", "alloc::vec::Vec::<T, A>::len", "core::slice::<impl [T]>::is_empty", "core::slice::<impl [T]>::len",
+               "<alloc::vec::Vec<T, A> as core::ops::deref::Deref>::deref", "alloc::vec::Vec::<T, A>::as_slice", AR + "as_slice"}
+        run.ob("views", "is_empty() looks only at the number of slots (count() / nodes.len() / nodes.is_empty()): %s" % names, bool(names) and set(names) <= okn,
+               key="views|is_empty is not count() == 0", detail=names, nontrivial=("view", "is_empty"))
     f = prog.fns.get("<crate::id::NodeId as core::fmt::Display>::fmt")
     if run.ob("views", "Display for NodeId exists", f is not None, key="views|Display missing"):
         reads = [s for s in rules.field_sites(prog, "crate::id::NodeId") if s["fn"] == f["key"]]
